@@ -65,11 +65,46 @@ def holder_flow(rng):
     return src, picks
 
 
+# Template programs for state shapes random hierarchies rarely reach: an action shared by two flows
+# (identical-action co-winners) whose first owner ends long before the action finishes; a flow variable
+# referring to a finished flow / action that is read after the clean-up age; an activated flow restarted
+# after its old instance aged away.
+TEMPLATES = {
+    "shared-action-owner-ends-first": (
+        "flow main\n  activate varholder\n  start fa\n  start fb\n  match Never()\n\n"
+        "flow fa\n  match Go()\n  start SharedAction() as $s\n\n"
+        "flow fb\n  match Go()\n  start SharedAction() as $s\n  match $s.Finished()\n  send DoneB()\n  match Tail()\n  send TailB()\n",
+        [["Go", "X", ["FIN", 0], "Tail", "X"], ["Go", ["FIN", 0], "Tail"], ["X", "Go", "X", "X", ["FIN", 0], "Tail"]],
+    ),
+    "finished-flow-referenced-later": (
+        "flow main\n  activate varholder\n  start fb as $ref\n  match $ref.Finished()\n  match Ask()\n  send Answer(s=$ref.status, u=$ref.uid)\n  match Never()\n\n"
+        "flow fb\n  match B()\n  start WorkAction() as $w\n",
+        [["B", "X", "Ask", "X"], ["X", "B", "Ask"], ["B", "Ask", "Ask"]],
+    ),
+    "finished-action-referenced-later": (
+        "flow main\n  activate varholder\n  start WorkAction() as $w\n  match $w.Finished()\n  match Ask()\n  send Answer(s=$w.status)\n  match Never()\n",
+        [[["FIN", 0], "X", "Ask"], ["X", ["FIN", 0], "Ask", "X"]],
+    ),
+    "activated-restart-after-aging": (
+        "flow main\n  activate varholder\n  activate fz\n  match Never()\n\n"
+        "flow fz\n  match Tick()\n  start FzAction() as $z\n  match $z.Finished()\n  send Tock()\n",
+        [["Tick", ["FIN", 0], "X", "Tick", ["FIN", 1], "X"], ["Tick", "X", ["FIN", 0], "Tick"]],
+    ),
+}
+
+
 def cases(tier, seed):
     base = seed * 2_000_003
     n = 260 if tier == "quick" else 6000
     for i in range(n):
         yield {"id": i, "seed": base + i, "hlen": 8 if tier == "quick" or i % 3 else 12}
+    k = n
+    reps = 2 if tier == "quick" else 10
+    for name in sorted(TEMPLATES):
+        for hi in range(len(TEMPLATES[name][1])):
+            for r in range(reps):
+                k += 1
+                yield {"id": k, "seed": base + k, "tmpl": name, "hist": hi}
 
 
 _S = {}
@@ -170,10 +205,17 @@ def run_case(case):
     L = v2h.load()
     ser = _S["ser"]
     rng = random.Random(case["seed"])
-    g = gen_v2.gen_hierarchy(rng, max_flows=5, with_vars=rng.random() < 0.5, loops=rng.random() < 0.2, main_kids_first=True)
     hsrc, picks = holder_flow(rng)
-    src = g["src"].replace("flow main\n", "flow main\n  activate varholder\n", 1) + "\n" + hsrc
-    hist = []
+    if case.get("tmpl"):
+        tsrc, thists = TEMPLATES[case["tmpl"]]
+        src = tsrc + "\n" + hsrc
+        hist = list(thists[case["hist"]]) + ["Dump"]
+        picks = picks + ["tmpl:" + case["tmpl"]]
+        case = dict(case, hlen=0)
+    else:
+        g = gen_v2.gen_hierarchy(rng, max_flows=5, with_vars=rng.random() < 0.5, loops=rng.random() < 0.2, main_kids_first=True)
+        src = g["src"].replace("flow main\n", "flow main\n  activate varholder\n", 1) + "\n" + hsrc
+        hist = []
     for _ in range(case["hlen"]):
         r = rng.random()
         if r < 0.2:
@@ -188,10 +230,11 @@ def run_case(case):
             hist.append("E%d" % rng.randint(1, 3))
     if "Dump" not in hist:
         hist.append("Dump")
+    hist = [list(h) if isinstance(h, (list, tuple)) else h for h in hist]
     base = {"key": repr((src, hist)), "picks": picks, "sample": {"program": src, "history": hist, "variables": picks}}
     obs = {"round_trips": 0, "cuts": 0, "max_json_kb": 0, "cleanups_removed_instances": 0, "events_compared": 0}
     for k in picks:
-        obs["var_" + k] = 1
+        obs[("tmpl_" + k[5:]) if k.startswith("tmpl:") else ("var_" + k)] = 1
     nontrivial = False
     problems = []
     try:
